@@ -344,7 +344,12 @@ func (v *Verifier) VerifyFunc(pkg *ssa.Package, c *Contract, pool *Pool) (res *F
 						res.Reason = u.msg
 						return
 					}
-					panic(r)
+					if os.Getenv("GCV_PANIC") != "" {
+						panic(r)
+					}
+					res.Status = "outside-subset"
+					res.Reason = fmt.Sprintf("internal error in the VC generator: %v", r)
+					return
 				}
 			}()
 			v.runPartition(pkg, fn, c, p, res, pool)
@@ -531,8 +536,61 @@ func (v *Verifier) runPartition(pkg *ssa.Package, fn *ssa.Function, c *Contract,
 	for i := 0; i < rs.Len(); i++ {
 		fr.resNames = append(fr.resNames, rs.At(i).Name())
 	}
-	// requires
 	se := &SpecEnv{fr: fr, st: st, old: st, vars: fr.params, pkg: pkg, fn: fn}
+	// ghost parameters (free ring / integer variables) and entry parametrisation of the inputs:
+	// "let p.X = px*p.Z*p.Z" substitutes the term into the entry state, so that no hypothesis remains
+	for _, gp := range c.GhostParams {
+		st.ghosts[gp] = F.Var("gp!"+gp, SInt)
+	}
+	for _, l := range c.Lets {
+		le, err := parseSpec(l.Name)
+		if err != nil {
+			unsup("let %q: %v", l.Name, err)
+		}
+		lv, ok := se.eval(le.Parts[0]).(*PtrV)
+		if !ok || lv.Obj == nil {
+			unsup("let %q: not an lvalue", l.Name)
+		}
+		cur := v.getPath(v.content(st, lv.Obj), lv.Path)
+		ct, isT := cur.(*Term)
+		if !isT {
+			unsup("let %q: not a scalar cell", l.Name)
+		}
+		rhs := se.evalTerm(l.E)
+		if ct.Op == OVar && !strings.HasPrefix(ct.Name, "gp!") {
+			st.mem[lv.Obj] = v.setPath(v.content(st, lv.Obj), lv.Path, rhs)
+			continue
+		}
+		if rhs == ct {
+			continue
+		}
+		// the cell was already parametrised through an aliased operand: identify this let's ghost
+		// parameter with the one used there (p == q  =>  qx := px)
+		done := false
+		for _, g := range c.GhostParams {
+			gv := F.Var("gp!"+g, SInt)
+			if st.ghosts[g] != gv {
+				continue
+			}
+			for _, g2 := range c.GhostParams {
+				if g2 == g {
+					continue
+				}
+				if F.Subst(rhs, map[*Term]*Term{gv: st.ghosts[g2]}) == ct {
+					st.ghosts[g] = st.ghosts[g2]
+					done = true
+					break
+				}
+			}
+			if done {
+				break
+			}
+		}
+		if !done {
+			unsup("let %q: the cell is already determined by an aliased operand and no ghost parameter can be identified", l.Name)
+		}
+	}
+	// requires
 	for _, r := range c.Requires {
 		st.pc = F.And(st.pc, se.evalBool(r))
 	}
